@@ -1,7 +1,7 @@
 /-
 Model of the material bookkeeping of thermosteam streams
-(`Stream.mix_from / split_to / separate_out / copy_flow / scale / * /`,
-`MultiStream.split_to / copy_flow`, `ChemicalIndexer.mix_from / separate_out`,
+(`Stream.mix_from / sum / split_to / separate_out / copy_flow / scale / * /`,
+`MultiStream.split_to / copy_flow / phases setter`, `ChemicalIndexer.mix_from / separate_out`,
 `MaterialIndexer.mix_from / separate_out / _expand_phases / to_material_indexer`,
 `indexer.index_overlap`, `SparseVector.mix_from`), everything with
 `energy_balance=False`.  Core Lean only (no Mathlib): it is compiled into the
@@ -21,8 +21,10 @@ line-protocol driver.
   `split_to`, etc. achieve in the code.
 * After a Python exception the case is over, so the state after an error is not modelled.
 
-The model describes the code *with the patches of fixes_proposed/C01-1 … C01-8 and C10-2
-applied*; everything else (including the combinations the code rejects) is mirrored as found.
+The model describes the code *with the patches of fixes_proposed/C01-1 … C01-8, C10-2 and C12-1
+applied*.  Everything else is mirrored as found, including the combinations the code rejects
+(`Stream.split_to` onto a `MultiStream` outlet, two argument forms of `Stream.copy_flow`) and the
+way `MultiStream.copy_flow` pairs the rows of two multi-phase streams by position.
 -/
 namespace ThermoVerif.Flow
 
@@ -471,6 +473,128 @@ def copySingle (w : World) (di si : Nat) (ids : IDs) (remove exclude : Bool) : E
         let s1 ← w1.get? si
         .ok (w1.setStrm si { s1 with ph := s1.ph.map (fun pr => (pr.1, zeroAt m K' pr.2)) })
       else .ok w1
+
+/-! ### copying flow onto a multi-phase destination (`MultiStream.copy_flow`) -/
+
+/-- the chemical index `IDs_index`: everything, one position, or a list of positions -/
+inductive Cols where
+  | all
+  | one (k : Nat)
+  | many (ks : List Nat)
+
+def Cols.has : Cols → Nat → Bool
+  | .all, _ => true
+  | .one k, j => j == k
+  | .many ks, j => ks.contains j
+
+def Cols.isAll : Cols → Bool
+  | .all => true
+  | _ => false
+
+/-- entries `C` of `dst` overwritten by those of `src` (`dst[C] = src[C]`) -/
+def putCols (n : Nat) (C : Cols) (dst src : Row) : Row := tab n (fun k => if C.has k then src.get k else dst.get k)
+/-- `r[C] = 0` -/
+def zeroCols (n : Nat) (C : Cols) (r : Row) : Row := tab n (fun k => if C.has k then 0 else r.get k)
+/-- only the entries `C` survive -/
+def keepCols (n : Nat) (C : Cols) (r : Row) : Row := tab n (fun k => if C.has k then r.get k else 0)
+
+/-- is row `i` selected by the phase index (`none` = `slice(None)`) -/
+def selRow (R : Option Nat) (i : Nat) : Bool :=
+  match R with
+  | none => true
+  | some m => i == m
+
+/-- rows paired *by position* (`zip(rows, value)`: the shorter side decides); `f i d s` -/
+def zipRowsFrom (f : Nat → Row → Row → Row) (i : Nat) : PhRows → List Row → PhRows
+  | (p, d) :: ds, s :: ss => (p, f i d s) :: zipRowsFrom f (i + 1) ds ss
+  | ds, _ => ds
+
+def mapIdxFrom (f : Nat → Row → Row) (i : Nat) : PhRows → PhRows
+  | [] => []
+  | (p, d) :: ds => (p, f i d) :: mapIdxFrom f (i + 1) ds
+
+/-- position of a phase in the row order -/
+def phaseIdx (l : PhRows) (p : Char) : Option Nat := (l.map (·.1)).idxOf? p
+
+def setRowAt (l : PhRows) (m : Nat) (r : Row) : PhRows :=
+  mapIdxFrom (fun i d => if i == m then r else d) 0 l
+
+/-- `MultiStream.copy_flow(other, phase, IDs, remove=, exclude=)` (multi-phase destination), as it is:
+rows of a multi-phase source are taken *by position*, not by phase -/
+def copyMulti (w : World) (di si : Nat) (phase : Option Char) (ids : IDs) (remove exclude : Bool) :
+    Except Err World := do
+  let d ← w.get? di
+  let s ← w.get? si
+  let P := w.pkgOf d
+  let Q := w.pkgOf s
+  let n := P.length
+  if d.pkg != s.pkg && P != Q then .error .rejected          -- 'other stream must have the same chemicals'
+  else do
+  let C ← match ids with
+    | .all => (.ok .all : Except Err Cols)
+    | .one c => match pos P c with
+      | some k => .ok (.one k)
+      | none => .error .undefinedChemical
+    | .many cs => (positions P cs).map Cols.many
+  let R ← match phase with
+    | none => (.ok none : Except Err (Option Nat))
+    | some p => match resolve d.ph p with
+      | none => .error .undefinedPhase
+      | some q => .ok (phaseIdx d.ph q)
+  let srows := s.rows
+  let finish (dph : PhRows) (srows' : Option (List Row)) : Except Err World := do
+    let w1 := w.setStrm di { d with ph := dph }
+    match srows' with
+    | none => .ok w1
+    | some rs => do
+      let s1 ← w1.get? si
+      .ok (w1.setStrm si { s1 with ph := zipRowsFrom (fun _ _ r => r) 0 s1.ph rs })
+  let rowMissing : Bool := match R with
+    | some m => s.multi && srows.length ≤ m
+    | none => false
+  if s.multi then
+    if exclude then
+      let d1 := zipRowsFrom (fun _ _ sr => tab n sr.get) 0 d.ph srows
+      let orig := d.rows
+      let d2 := zipRowsFrom (fun i cur o => if selRow R i then putCols n C cur o else cur) 0 d1 orig
+      if remove then
+        if rowMissing then .error .rejected                  -- `rows[m]` : IndexError
+        else
+          -- `other_data[phase_index, IDs_index]` is the array / row object itself when IDs is `...`:
+          -- it is emptied by `other_data[:] = 0.` before it is written back
+          let srows' := srows.zipIdx.map (fun (r, i) =>
+            if selRow R i && !C.isAll then keepCols n C r else vzero n)
+          finish d2 (some srows')
+      else finish d2 none
+    else
+      if rowMissing then .error .rejected
+      else
+        let d1 := zipRowsFrom (fun i cur sr => if selRow R i then putCols n C cur sr else cur) 0 d.ph srows
+        if remove then
+          finish d1 (some (srows.zipIdx.map (fun (r, i) => if selRow R i then zeroCols n C r else r)))
+        else finish d1 none
+  else
+    let srow := s.total n
+    if exclude then
+      match resolve d.ph s.phase with
+      | none => .error .undefinedPhase
+      | some q =>
+        let opi := (phaseIdx d.ph q).getD 0
+        let d1 := setRowAt d.ph opi (tab n srow.get)
+        let d2 := zipRowsFrom (fun i cur o => if selRow R i then putCols n C cur o else cur) 0 d1 d.rows
+        if remove && (phase.isNone || R == some opi) then
+          finish d2 (some [if C.isAll then vzero n else keepCols n C srow])
+        else finish d2 none
+    else
+      let d0 := d.ph.map (fun pr => (pr.1, vzero n))
+      match resolve d.ph s.phase with
+      | none => .error .undefinedPhase
+      | some q =>
+        let opi := (phaseIdx d.ph q).getD 0
+        if phase.isNone || R == some opi then
+          let d1 := setRowAt d0 opi (putCols n C (vzero n) srow)
+          if remove then finish d1 (some [zeroCols n C srow]) else finish d1 none
+        else finish d0 none
 
 /-! ### scaling -/
 
